@@ -421,7 +421,13 @@ def r7_overrides(ctx, sym):
         fd.calls['hasattr'] = lambda o, name: name in o.attrs
         try:
             for who, fields in steps:
-                fd.call_function(ov, [], dict(fields, report=report), bound_self=classes[who])
+                try:
+                    fd.call_function(ov, [], dict(fields, report=report), bound_self=classes[who])
+                except Raised as e:
+                    # a misspelled field name is the instructor's error (AttributeError is the documented
+                    # outcome); what was overridden before it must still be restored by clear()
+                    if not (e.kind == 'AttributeError' and any(f.startswith('no_such') for f in fields)):
+                        raise
             registered = set(report.attrs['overridden_feedbacks'])
             fd.call_function(cof, [], bound_self=report)
         except Raised as e:
@@ -440,6 +446,14 @@ def r7_overrides(ctx, sym):
         [('sub', {'title': 'B'}), ('other', {'title': 'C', 'message': 'M'})],
         [('base', {'title': 'A', 'message': 'M'}), ('other', {'message': 'M2'}), ('sub', {'message': 'M3'})],
         [('root', {'title': 'R'}), ('sub', {'title': 'B'})],
+        # a call that fails half-way (unknown field after a known one)
+        [('sub', {'title': 'B', 'no_such_field': 1})],
+        [('base', {'title': 'A'}), ('other', {'message': 'M', 'no_such_field': 1})],
+        # the same field overridden twice in one grading (course-wide wording, then assignment wording)
+        [('sub', {'title': 'B'}), ('sub', {'title': 'B2'})],
+        [('sub', {'message': 'M'}), ('sub', {'message': 'M2', 'title': 'T'}), ('sub', {'title': 'T2'})],
+        [('other', {'title': 'C'}), ('other', {'title': 'C2'}), ('other', {'message': 'M'}), ('other', {'message': 'M2'})],
+        [('sub', {'title': 'B'}), ('base', {'title': 'A'}), ('sub', {'title': 'B2'}), ('base', {'title': 'A2'})],
     ]
     for steps in sequences:
         tag = ';'.join('%s.override(%s)' % (w, ','.join('%s=%r' % kv for kv in f.items())) for w, f in steps)
@@ -454,6 +468,8 @@ def r7_overrides(ctx, sym):
                       tag, after, before),
                   "FeedbackResponse.override(title='a'); gently.override(title='b'); clear_report() -> gently.title is "
                   "still 'b' for every later grading in the process")
+        if any(f.startswith('no_such') for _, fs in steps for f in fs):
+            continue
         ctx.check(registered == {c for c in registered} and len(registered) == len({w for w, _ in steps}) and
                   not report.attrs['overridden_feedbacks'], 'R7', 'override:registers:' + tag, mod, ov,
                   "%d class(es) registered for %d overriding class(es); %d left registered after clear" % (
